@@ -79,27 +79,20 @@ class SweepOracle(Oracle):
         return [n for n in self.order[h] if self.is_leaf[id(n)]]
 
     def unevaluated_before(self, node):
-        """An unevaluated leaf that precedes `node` in the sweep (shallower, or same depth and earlier)."""
+        """An unevaluated leaf that precedes `node` in the top-down sweep: one of strictly smaller depth (the
+        statement fixes the order of depths, not the order in which the cells of one depth are visited)."""
         h = node.get_depth()
-        for d in range(0, h + 1):
+        for d in range(0, h):
             for n in self.order[d]:
-                if d == h and n is node:
-                    break
                 if self.is_leaf[id(n)] and self.evals(n) == 0 and self.handed.get(id(n), 0) == 0:
                     return n
         return None
 
     # ----------------------------------------------------------------- pull
-    def after_pull(self, ctx):
-        self.t += 1
-        t = self.t
+    def _process_calls(self, ctx, calls, judging, t):
+        """Judge and book the expansions made since the last look (inside pull or inside receive_reward: the
+        statement does not say when a leaf is expanded)."""
         st = ctx.extra["stats"]
-        calls = [c for c in ctx.round_calls() if c["partition"] is self.P]
-        judging = ctx.judging
-        prev_depth = None
-        prev_val = None
-        if self.kind == "DOO" and len(calls) > 1 and judging:
-            raise Violation("C08.one", "DOO made %d expansions in one pull (round %d)" % (len(calls), t))
         for c in calls:
             par = c["parent"]
             h = par.get_depth()
@@ -124,11 +117,12 @@ class SweepOracle(Oracle):
                     raise Violation("C08.best", "expanded leaf %r (depth %d) has value %r but a rival leaf has %r (round %d)"
                                     % (cell_id(par), h, v, best, t), round=t)
                 if self.kind in ("SOO", "StoSOO"):
-                    if prev_depth is not None and h > prev_depth:
-                        if not (v >= prev_val or close(v, prev_val)):
+                    if self.prev_depth is not None and h > self.prev_depth:
+                        if not (v >= self.prev_val or close(v, self.prev_val)):
                             raise Violation("C08.monotone", "leaf %r (value %r) expanded after a shallower leaf of value %r in the same sweep (round %d)"
-                                            % (cell_id(par), v, prev_val, t))
-                    prev_depth, prev_val = h, v
+                                            % (cell_id(par), v, self.prev_val, t))
+                        st.bump("monotone_comparisons")
+                    self.prev_depth, self.prev_val = h, v
                 st.bump("expansions_judged")
             # model update
             self.is_leaf[id(par)] = False
@@ -138,7 +132,17 @@ class SweepOracle(Oracle):
             for n in ch:
                 self.order[h + 1].append(n)
                 self.is_leaf[id(n)] = True
-        self._n_after_pull = len(calls)
+
+    def after_pull(self, ctx):
+        self.t += 1
+        t = self.t
+        st = ctx.extra["stats"]
+        calls = [c for c in ctx.round_calls() if c["partition"] is self.P]
+        judging = ctx.judging
+        self.prev_depth = None
+        self.prev_val = None
+        self._process_calls(ctx, calls, judging, t)
+        self._n_seen = len(calls)
         # the cell handed out
         cell = handed_cell(ctx.algo)
         self.cell = cell
@@ -172,7 +176,12 @@ class SweepOracle(Oracle):
         cell = self.cell
         self.rew.setdefault(id(cell), []).append(ctx.r)
         self.handed[id(cell)] -= 1
-        # the tree is grown inside pull only (the model was updated there)
-        n_now = len([c for c in ctx.round_calls() if c["partition"] is self.P])
-        if ctx.judging and n_now != self._n_after_pull:
-            raise Violation("C08.when", "the tree was grown inside receive_reward (round %d)" % ctx.t)
+        # expansions made inside receive_reward (an eager sweep) are judged and booked like those made in pull
+        calls = [c for c in ctx.round_calls() if c["partition"] is self.P]
+        new = calls[self._n_seen:]
+        if new:
+            self.prev_depth = None
+            self.prev_val = None
+            self._process_calls(ctx, new, ctx.judging, self.t)
+        if self.kind == "DOO" and len(calls) > 1 and ctx.judging:
+            raise Violation("C08.one", "DOO made %d expansions in one round (round %d)" % (len(calls), self.t))
